@@ -1,7 +1,7 @@
 (* Corr/C09Corr.v — case checkers for the C09 correspondence (process-state model vs implementation).
-   Depends on the model (and on the regenerated facts for the decomposition-registry keys), never on Proofs. *)
+   Depends on the model only. *)
 From Coq Require Import String QArith.
-From CKT Require Import Common.Base Model.Process Extracted.Facts.
+From CKT Require Import Common.Base Model.Process.
 Close Scope Q_scope.
 Open Scope string_scope.
 Open Scope list_scope.
@@ -101,7 +101,7 @@ Definition chk_history (c : hcase) : bool :=
   let '(views, fresh, evs) := c in
   match import_actions with
   | Ok an =>
-      let g0 := fresh_process an registry_names 0 0 in
+      let g0 := fresh_process an import_basis 0 0 in
       walk views fresh g0 evs && forallb (fun e => walk views fresh g0 [e]) fresh
   | _ => false
   end.
